@@ -7,7 +7,8 @@ from props.common import boot_ops, brokers, parsed_requests, rand_bytes
 SLICE = "Producer.partition / send_all_reqs (DefaultPartitioner, Producer::send_all)"
 RULE = ("random producers over 1-3 topics with 1..64 partitions and random leaderless partitions; batches interleave keyed "
         "(keys: all 1- and 2-byte keys in the thorough tier, random up to 8 KiB otherwise), keyless and explicit records and "
-        "unknown topics; the partition of every record is read off the produce requests and compared with an independent "
+        "unknown topics; some producers are built on a client that first saw a topic with more partitions and reloaded it by name after it "
+        "was created anew with fewer; the partition of every record is read off the produce requests and compared with an independent "
         "XXH32 (pure python, from the xxHash spec); non-trivial = a case in which at least one keyed and one keyless record were assigned")
 ASSUMPTIONS = ["python XXH32 in this file is an independent implementation of the xxHash specification (self-checked on published vectors)"]
 
@@ -52,7 +53,7 @@ assert xxh32(b"") == 0x02CC5D05 and xxh32(b"abc") == 0x32D153FF
 assert xxh32(b"Nobody inspects the spammish repetition") == 0xE2293B2F
 
 
-def make_case(rng, keys=None, wrap=False, ntopics=None):
+def make_case(rng, keys=None, wrap=False, ntopics=None, recreated=False):
     nb = rng.randint(1, 3)
     topics = {}
     names = [b"t%d" % i for i in range(ntopics or rng.randint(1, 3))]
@@ -62,7 +63,20 @@ def make_case(rng, keys=None, wrap=False, ntopics=None):
         topics[t] = [(-1 if rng.random() < dead else rng.randint(1, nb)) for _ in range(n)]
     spec = {"brokers": brokers(nb), "topics": topics, "logs": {}}
     common.maybe_order(rng, spec)
-    ops = boot_ops(spec) + [T("producer_build", [T("from_client"), [T("with_required_acks", [1])]])]
+    boot = boot_ops(spec)
+    if recreated:
+        # the client the producer is built on has a metadata HISTORY: at its first (full) load one topic still had more - and other -
+        # partitions; the topic was then deleted and created anew with the layout of `spec`, and the client reloaded it by name.
+        # Count and availability are those of the last load.
+        t = rng.choice(names)
+        extra = rng.randint(1, 5)
+        old = [rng.randint(1, nb) for _ in range(len(topics[t]) + extra)]
+        body = {"brokers": [{"node_id": n, "host": h, "port": p} for n, (h, p) in sorted(spec["brokers"].items())],
+                "topics": [{"error": 0, "topic": tt, "partitions": [{"error": 0 if l >= 0 else 5, "id": i, "leader": l, "replicas": [], "isr": []}
+                                                                     for i, l in enumerate(old if tt == t else ls)]}
+                           for tt, ls in topics.items()]}
+        boot = [boot[0], {"op": boot[1], "mutate": {"kind": "body", "api": "metadata", "body": body}}] + boot[2:] + [T("load_metadata", [[t]])]
+    ops = boot + [T("producer_build", [T("from_client"), [T("with_required_acks", [1])]])]
     serial = [0]
     meta_batches = []
     if wrap:
@@ -100,6 +114,8 @@ def gen(rng, tier):
         cases.append(make_case(rng))
     for _ in range(10 if tier == "quick" else 60):
         cases.append(make_case(rng, wrap=True, ntopics=1))
+    for _ in range(24 if tier == "quick" else 200):
+        cases.append(make_case(rng, recreated=True))
     if tier == "thorough":
         allkeys = [bytes([a]) for a in range(256)] + [bytes([a, b]) for a in range(256) for b in range(256)]
         rng.shuffle(allkeys)
